@@ -46,3 +46,28 @@ Print Assumptions C18_loop_validation_monotone.
 Example C18_example :
   decode dec_ok_basic None [0;1;0;8; 33;18;164;66; 1;2;3;4;5;6;7;8;9;10;11;12; 127;1;0;1;255;0;0;0] = WOk 28 [0].
 Proof. vm_compute. reflexivity. Qed.
+
+(* ---- the property in exactly the form in which the implementation is judged: the monitors monitor_C18 (sizes and wire
+   positions) and monitor_C18val (positions combined with any function of the decoded value) of Codec/WireMon.v, run on the
+   17 results of the MODEL (model_obs = what ocaml/driver.ml computes: no context; {no key, key} x validation x unknown data
+   x not_ignore), accept EVERY buffer and key — for the full typed decoder wherever the buffer is inside the model (no
+   non-ASCII USERNAME: PRECIS tables), which is decided by the default-context decode alone *)
+From Rustun Require Import Codec.WireMon Codec.WireFull Proofs.WireMeets.
+Theorem C18_model_meets_monitor : forall key b,
+  (forall cfg, decode dec_ok_full cfg b <> WUnmodelled) -> monitor_C18 (model_obs dec_ok_full key b) = true.
+Proof. exact WireMeets.full_meets_C18. Qed.
+Print Assumptions C18_model_meets_monitor.
+Theorem C18_model_meets_value_monitor : forall key b (val_of : bytes -> N -> N),
+  (forall cfg, decode dec_ok_full cfg b <> WUnmodelled) ->
+  monitor_C18val (map_obs (fun p => p * 4294967296 + val_of b p) (model_obs dec_ok_full key b)) = true.
+Proof. exact WireMeets.full_meets_C18val. Qed.
+Print Assumptions C18_model_meets_value_monitor.
+Theorem C18_modelled_by_default_decode : forall b,
+  decode dec_ok_full None b <> WUnmodelled -> forall cfg, decode dec_ok_full cfg b <> WUnmodelled.
+Proof. exact WireMeets.full_modelled_one. Qed.
+(* generic in the typed decoders: the only thing needed of them is that acceptance does not depend on the unknown-data flag *)
+Theorem C18_model_meets_monitor_generic : forall dec_ok key b,
+  (forall hdr ty v, dec_ok true hdr ty v = dec_ok false hdr ty v) ->
+  (forall ctx, decode dec_ok ctx b <> WUnmodelled) -> monitor_C18 (model_obs dec_ok key b) = true.
+Proof. exact WireMeets.model_meets_C18. Qed.
+Print Assumptions C18_model_meets_monitor_generic.
